@@ -11,7 +11,7 @@ pub mod server;
 pub mod types;
 pub mod wire;
 
-pub use cluster::{ClusterSpec, ColumnDef, ColumnKind, ExtraTable, KeyspaceDef, NodeSpec, ServerOptions, TableDef, UdtDef, host_id_for};
+pub use cluster::{ClusterSpec, ColumnDef, ColumnKind, ExtraTable, KeyspaceDef, NodeOverride, NodeSpec, ServerOptions, TableDef, UdtDef, host_id_for};
 pub use script::{Action, CloseBy, CutKind, Ev, Handler, Key, NodeSel, ReqCtx, TraceEvent};
 pub use server::{ConnInfo, MockCluster};
 pub use types::{Cell, ColSpec, CqlType, DbErr, ErrorSpec, MetaMode, PreparedSpec, RowsSpec, cell, tablet_payload_value, uncell};
